@@ -200,6 +200,86 @@ fn main() {
     let f = fn(n: int) -> int { n + outer };
     println(f(2));
 }`)},
+	{"iterate-left-early", Single(`
+fn find(s: str, stop: int) -> int {
+    let n = 0;
+    for ch in s {
+        if n == stop { return n; }
+        println("find", s, n, ch);
+        n = n + 1;
+    }
+    0 - 1
+}
+fn main() {
+    let n = 0;
+    for ch in "homescript" {
+        n = n + 1;
+        if n == 3 { break; }
+        println("ch", ch);
+    }
+    for ch in "homescript" { println("again", ch); }
+    println(find("homescript", 4), find("homescript", 4), find("homescript", 40));
+    try {
+        let k = 0;
+        for ch in "throwing" { k = k + 1; if k == 5 { throw("left at 5"); } println("t", ch); }
+    } catch e { println(e.message); }
+    for ch in "throwing" { println("t2", ch); }
+    let l = [10, 20, 30, 40];
+    for v in l { if v == 30 { break; } println("v", v); }
+    for v in l { println("v2", v); }
+    for i in 0..10 { if i == 3 { break; } println("i", i); }
+}`)},
+	{"iterate-nested-same-string", Single(`
+fn main() {
+    let word = "abc";
+    let outer = 0;
+    for a in word {
+        outer = outer + 1;
+        if outer > 5 { break; }
+        let inner = 0;
+        for b in word { inner = inner + 1; if inner == 2 { break; } println(a, b); }
+    }
+    for a in "xyz" { let m = 0; for b in "xyz" { m = m + 1; if m > 4 { break; } println(a, b); } }
+}`)},
+	{"long-output-then-index-fatal", Single(`
+fn work(n: int) -> int { let acc = 0; for i in 0..n { acc = (acc + i * i) % 1000; } acc }
+fn main() {
+    let data = [3, 1, 4, 1, 5];
+    for round in 0..300 {
+        println("round", round, work(30 + round % 3));
+    }
+    println(data[7]);
+}`)},
+	{"long-output-then-assert-fatal", Program{Entry: "main", Modules: map[string]string{"main": `import assert_eq from testing;
+fn work(n: int) -> int { let acc = 0; for i in 0..n { acc = (acc + i * 7) % 1000; } acc }
+fn main() {
+    for round in 0..200 {
+        print("row ", round, " ", work(20 + round % 5), "\n");
+    }
+    assert_eq(1, 2);
+}`}}},
+	{"long-output-then-throw", Single(`
+fn work(n: int) -> int { let acc = 0; for i in 0..n { acc = (acc + i) % 1000; } acc }
+fn main() {
+    let l = [1];
+    for round in 0..200 {
+        println("line", round, work(25));
+    }
+    l.remove(99);
+    throw("never");
+}`)},
+	{"member-suggestions", Single(`
+type Pos = { pos_x: int, pos_y: int };
+fn main() {
+    let p: Pos = new { pos_x: 1, pos_y: 2 };
+    println(p.pos_z);
+    let q = new { aa: 1, ab: 2, ba: 3, bb: 4 };
+    println(q.ac, q.cb, q.xx);
+    let s = "str";
+    println(s.lenn(), s.to_strin());
+    let l = [1];
+    println(l.puhs(2), l.lem());
+}`)},
 	{"cast-two-wrong-fields", Single(`
 fn main() {
     try {
